@@ -134,7 +134,7 @@ def gen_selector(rng, shape, want=None, allow_list=False):
         c0 = rng.randint(1, nc - w + 1)
         return rect_spec(rng, nr, nc, r0, r0 + h - 1, c0, c0 + w - 1)
     kind = rng.choices(['all', 'cell', 'row', 'rect', 'col', 'step', 'list'],
-                       weights=[2, 3, 2, 4, 2, 1, 1 if allow_list else 0])[0]
+                       weights=[2, 3, 2, 4, 2, 1, float(allow_list)])[0]
     if kind == 'all':
         return {'k': 'all'}
     if kind == 'cell':
@@ -196,6 +196,7 @@ class GenA:
         self.n_hold = 0
         self.used_names = set()
         self.mirror = None
+        self.last_fills = []
         self.only_plate = None
         self.pending = []
 
@@ -510,9 +511,9 @@ class GenA:
             dshape = md.shape
         # selectors by form
         if form == 'c>N':
-            dsel = self.maybe_sub(gen_selector(rng, dshape, allow_list=True), dshape)
+            dsel = self.maybe_sub(gen_selector(rng, dshape, allow_list=self.p.get('list_w', 1)), dshape)
         elif form == 'N>c':
-            ssel = self.maybe_sub(self.sel_biased_nonempty(ms, allow_list=True), sshape)
+            ssel = self.maybe_sub(self.sel_biased_nonempty(ms, allow_list=self.p.get('list_w', 1)), sshape)
         elif form == '1>N':
             ne = self.nonempty_cells(ms)
             if ne and rng.random() < 0.9:
@@ -527,9 +528,9 @@ class GenA:
                 if (r1, c1) != (r, c):
                     ssel = {'k': 'sub', 'base': {'k': 'rect', 'r': [r, r1, None], 'c': [c, c1, None], 'rl': False, 'cl': False},
                             'sub': [[0, 1], [0, 1]]}
-            dsel = self.maybe_sub(gen_selector(rng, dshape, allow_list=True), dshape)
+            dsel = self.maybe_sub(gen_selector(rng, dshape, allow_list=self.p.get('list_w', 1)), dshape)
         elif form == 'N>1':
-            ssel = self.maybe_sub(self.sel_biased_nonempty(ms, allow_list=True), sshape)
+            ssel = self.maybe_sub(self.sel_biased_nonempty(ms, allow_list=self.p.get('list_w', 1)), sshape)
             dsel = gen_selector(rng, dshape, 'cell')
         elif form == 'N>N':
             h = rng.randint(1, min(sshape[0], dshape[0]))
@@ -673,7 +674,7 @@ class GenA:
         ref = [t[0], t[1]]
         present = []
         if kind == 'plate':
-            sel = self.maybe_sub(self.sel_biased_nonempty(m, allow_list=True), m.shape)
+            sel = self.maybe_sub(self.sel_biased_nonempty(m, allow_list=self.p.get('list_w', 1)), m.shape)
             ref.append(sel)
             cells, _ = M.select(sel, m.shape)
             for c in cells:
@@ -692,6 +693,10 @@ class GenA:
     # ---- fill_to
     def gen_fill_to(self):
         rng = self.rng
+        if self.last_fills and rng.random() < self.p.get('p_refill', 0.07):
+            # the same fill once more (nothing to add if nothing happened in between)
+            ref, solvent, q = rng.choice(self.last_fills[-4:])
+            return {'op': 'fill_to', 'tgt': [ref[0], -1] + ref[2:], 'solvent': solvent, 'q': q, 'obs': rng.randrange(1 << 30)}
         kind = rng.choice(['container', 'container', 'plate'])
         t = self.pick(kind)
         if t is None:
@@ -699,7 +704,7 @@ class GenA:
         m, obj = self.latest_model(*t)
         ref = [t[0], t[1]]
         if kind == 'plate':
-            sel = self.maybe_sub(gen_selector(rng, m.shape, allow_list=True), m.shape)
+            sel = self.maybe_sub(gen_selector(rng, m.shape, allow_list=self.p.get('list_w', 1)), m.shape)
             ref.append(sel)
             cells, _ = M.select(sel, m.shape)
             vs = [m.well(c) for c in cells]
@@ -751,6 +756,8 @@ class GenA:
         digits = 16 if cls in ('cap_exact',) else 14 if 'near' in cls else 8
         sign = '-' if val < 0 else ''
         q = sign + fmt_quantity(rng, abs(val), unit, digits=digits)
+        if cls == 'in':
+            self.last_fills.append((list(ref), solvent, q))
         return {'op': 'fill_to', 'tgt': ref, 'solvent': solvent, 'q': q, 'obs': rng.randrange(1 << 30)}
 
     # ---- dilute
